@@ -72,6 +72,13 @@ class Prop(common.PropertyCheck):
             for cont in ('array', 'sample'):
                 yield {'g': 'ellipse', 'cont': cont, 'N': 40, 'a': a, 'b': b, 'theta': 0.0, 'center': [500.0, 400.0], 'log': False, 'chform': 'pos',
                        'dtype': 'float', 'degenerate': True, 'seed': 500 + i}
+        # two-column samples gated on (column 1, column 0); samples of more than 2**16 events whose events all lie inside the ellipse
+        for i in range(self.budget(8, 60)):
+            yield {'g': 'ellipse', 'cont': 'array', 'N': [40, 60][i % 2], 'a': 300.0, 'b': 120.0, 'theta': [0.4, 0.0, -1.1][i % 3], 'center': [520.0, 480.0], 'log': False,
+                   'chform': 'pos', 'dtype': 'float', 'two_cols': ['rev', 'same', 'rev_tuple'][i % 3], 'seed': rng.randrange(1 << 30)}
+        for i, n in enumerate([65536, 70001, 131072][:self.budget(2, 3)]):
+            yield {'g': 'ellipse', 'cont': 'array', 'N': n, 'a': 900.0, 'b': 800.0, 'theta': 0.3, 'center': [512.0, 512.0], 'log': False, 'chform': 'pos', 'dtype': 'float',
+                   'big_inside': True, 'seed': 900 + i}
         # unrotated ellipses with events exactly on, one unit in the last place inside and one outside the boundary
         for i, (a, b) in enumerate([(2.0, 3.0), (5.0, 5.0), (0.75, 1e3), (300.0, 200.0)]):
             yield {'g': 'ellipse', 'cont': 'array', 'N': 24, 'a': a, 'b': b, 'theta': 0.0, 'center': [0.0, 0.0] if i % 2 == 0 else [512.0, 256.0], 'log': False,
@@ -102,6 +109,10 @@ class Prop(common.PropertyCheck):
                 a[mk] = np.round(a[mk])
                 if case.get('dtype') == 'float_nan' and N:
                     a[r.rand(N, D) < 0.1] = np.nan
+                if case.get('two_cols'):
+                    a = a[:, :2]
+                if case.get('big_inside') and N:
+                    a[:, 0] = r.uniform(300, 700, size=N); a[:, 1] = r.uniform(300, 700, size=N)
                 if case.get('onboundary') and N:
                     cx, cy = case['center']; A, B = case['a'], case['b']
                     pts = [(cx + A, cy), (cx + np.nextafter(A, np.inf), cy), (cx + np.nextafter(A, 0), cy), (cx - A, cy), (cx, cy + B), (cx, cy + np.nextafter(B, np.inf)),
@@ -213,6 +224,8 @@ class Prop(common.PropertyCheck):
                     ch = [names[0], names[1]] if chf == 'names' else [0, 1] if chf == 'pos' else [names[0], 1]
                 else:
                     ch = [0, 1]
+                if case.get('two_cols'):
+                    ch = {'rev': [1, 0], 'same': [1, 1], 'rev_tuple': (1, 0)}[case['two_cols']]
                 dd = d
                 if case.get('lograw'):
                     # small values incl. zeros and (for float data) negatives, unchanged
@@ -232,7 +245,7 @@ class Prop(common.PropertyCheck):
                     short = FlowCal.gate.ellipse(dd, ch, center, a, b, case['theta'], log=case['log'])
                 except Exception as e:
                     return {'err': type(e).__name__ + ':' + str(e)[:60]}
-                pts = arr[:, [0, 1]]
+                pts = arr[:, [0, 1]] if not case.get('two_cols') else arr[:, list(ch)]
                 if case['log']:
                     with np.errstate(all='ignore'):
                         pts = np.log10(pts)
@@ -286,6 +299,9 @@ class Prop(common.PropertyCheck):
                     if not ((l is None and not math.isnan(v)) or (l is not None and v > l)):
                         ok = False
                 want.append(ok)
+        elif case.get('big_inside'):
+            # every event lies well inside the ellipse (by construction): all are kept, whatever the number of events
+            want = [True] * impl['N']
         elif case.get('degenerate'):
             p = impl['params']
             pts = np.array([[struct.unpack('<d', struct.pack('<Q', v))[0] for v in xy] for xy in p['pts']], dtype=float).reshape(-1, 2)
@@ -352,7 +368,7 @@ class Prop(common.PropertyCheck):
             return None
         if g == 'start_end':
             return {'op': 'start_end', 'n': case['N'], 's': case['s'], 'e': case['e']}
-        if 'err' in impl or case.get('degenerate'):
+        if 'err' in impl or case.get('degenerate') or case.get('big_inside'):
             return None
         p = impl['params']
         if g == 'high_low':
